@@ -11,7 +11,7 @@ pub fn def() -> PropDef {
     PropDef {
         info: PropInfo {
             id: "C14",
-            rule: "strings from three generators: (a) token soup over the assembler alphabet - mnemonics, registers with 1-40 digit numbers, identifiers of up to 80 Unicode letters/digits of 1-4 bytes each, decimal and hexadecimal literals of 1-80 digits with every sign combination, the extreme values around 2^63 and 2^64, brackets, commas, truncated operands; (b) arbitrary Unicode strings; (c) valid texts from the C13 generator with 1-3 character-level mutations. Oracle: assemble() returns under catch_unwind (Ok or Err); inputs are at most a few KiB so the work is bounded; a single call slower than 20 s is reported as inconclusive, not as a violation. Non-trivial = input containing a numeric literal of >= 19 digits, a sign, or a bracket; distinct by hash.",
+            rule: "strings from three generators: (a) token soup over the assembler alphabet - mnemonics, registers with 1-40 digit numbers, identifiers of up to 80 Unicode letters/digits of 1-4 bytes each, decimal and hexadecimal literals of 1-80 digits with every sign combination, the extreme values around 2^63 and 2^64, brackets, commas, truncated operands; (b) arbitrary Unicode strings; (c) valid texts from the C13 generator with 1-3 character-level mutations; (d) valid texts in which a mnemonic's digits, a mnemonic suffix or an operand's digits are replaced by Unicode numeric characters of 2-4 bytes (superscripts, fractions, Arabic-Indic, full-width, Roman, circled, mathematical digits). Oracle: assemble() returns under catch_unwind (Ok or Err); inputs are at most a few KiB so the work is bounded; a single call slower than 20 s is reported as inconclusive, not as a violation. Non-trivial = input containing a numeric literal of >= 19 digits, a sign, or a bracket; distinct by hash.",
             assumptions: &["a panic anywhere below assemble() unwinds (the harness is built with panic=unwind)"],
         },
         run,
@@ -132,6 +132,66 @@ fn apply_muts(m: &Mutated) -> String {
     chars.into_iter().collect()
 }
 
+/// Characters that Unicode classes as numeric (Nd outside ASCII, No, Nl; 2, 3 and 4 bytes long):
+/// `char::is_numeric` / `is_alphanumeric` accept them, `str::parse::<integer>` does not.
+const NUMERICS: [char; 34] = [
+    '\u{b2}', '\u{b3}', '\u{b9}', '\u{bc}', '\u{bd}', '\u{be}', '\u{660}', '\u{661}', '\u{662}', '\u{663}', '\u{669}', '\u{6f0}', '\u{6f6}',
+    '\u{7c0}', '\u{7c9}', '\u{966}', '\u{96f}', '\u{e51}', '\u{ff10}', '\u{ff11}', '\u{ff16}', '\u{2167}', '\u{2177}', '\u{2460}', '\u{2469}',
+    '\u{32bf}', '\u{3007}', '\u{2070}', '\u{2084}', '\u{1d7d8}', '\u{1d7de}', '\u{1d7ff}', '\u{104a0}', '\u{10107}',
+];
+
+#[derive(Clone, Debug)]
+struct Lookalike {
+    lines: Vec<asmref::Line>,
+    line: u16,
+    mode: u8,
+    nums: Vec<char>,
+    pos: u16,
+}
+
+/// Valid texts in which digits are replaced by (or mnemonics extended with) Unicode numeric
+/// characters: everything around the substitution parses and encodes, so the odd token reaches the
+/// deepest stage that looks at it.
+fn lookalike() -> impl Strategy<Value = Lookalike> {
+    (asmref::program(3), any::<u16>(), 0u8..5, prop::collection::vec(prop::sample::select(NUMERICS.to_vec()), 1..3), any::<u16>())
+        .prop_map(|(lines, line, mode, nums, pos)| Lookalike { lines, line, mode, nums, pos })
+}
+
+fn apply_lookalike(l: &Lookalike) -> String {
+    let mut lines = l.lines.clone();
+    let k = (l.line as usize * lines.len()) >> 16;
+    let nums: String = l.nums.iter().collect();
+    match l.mode {
+        0 => {
+            let stem = lines[k].mnemonic.trim_end_matches(|c: char| c.is_ascii_digit()).to_string();
+            lines[k].mnemonic = format!("{stem}{nums}");
+        }
+        1 => {
+            let mut it = l.nums.iter().cycle();
+            lines[k].mnemonic = lines[k].mnemonic.chars().map(|c| if c.is_ascii_digit() { *it.next().unwrap() } else { c }).collect();
+        }
+        2 => lines[k].mnemonic.push_str(&nums),
+        _ => {}
+    }
+    let text = asmref::render(&lines);
+    if l.mode < 3 {
+        return text;
+    }
+    let digit_pos: Vec<usize> = text.char_indices().filter(|(_, c)| c.is_ascii_digit()).map(|(i, _)| i).collect();
+    if digit_pos.is_empty() {
+        return text;
+    }
+    let at = digit_pos[(l.pos as usize * digit_pos.len()) >> 16];
+    let mut out = String::with_capacity(text.len() + 8);
+    let mut it = l.nums.iter().cycle();
+    for (i, c) in text.char_indices() {
+        // mode 3: one digit; mode 4: the whole run of digits around it
+        let hit = if l.mode == 3 { i == at } else { c.is_ascii_digit() && text[i.min(at)..i.max(at)].chars().all(|x| x.is_ascii_digit()) };
+        out.push(if hit { *it.next().unwrap() } else { c });
+    }
+    out
+}
+
 fn nontrivial(s: &str) -> bool {
     let mut run = 0;
     let mut long = false;
@@ -183,6 +243,18 @@ fn run(ctx: &Ctx) {
         let v = check_total(&s);
         if !want_case {
             account(ctx, &s, "mutated-valid");
+        }
+        (v, if want_case { json!({"text": s}) } else { Value::Null })
+    });
+    let cases = ctx.share(ctx.tier.pick(240_000, 6_000_000));
+    ctx.search("lookalike", "text", cases, lookalike(), |l, want_case| {
+        let s = apply_lookalike(l);
+        let v = check_total(&s);
+        if !want_case {
+            account(ctx, &s, "unicode-numeric-lookalike");
+            let mut st = ctx.stats();
+            st.class(match l.mode { 0 => "lookalike:stem+numeric", 1 => "lookalike:mnemonic-digits", 2 => "lookalike:mnemonic+numeric", 3 => "lookalike:one-operand-digit", _ => "lookalike:operand-digit-run" });
+            st.nontrivial(fnv_str(&s));
         }
         (v, if want_case { json!({"text": s}) } else { Value::Null })
     });
